@@ -211,7 +211,7 @@ def _stream_worker(a):
     elif kind == "aged":
         # requests that have been pending for more than ten seconds when statistics are asked for (the report then has a line
         # per old request); no timeout is configured, or one that is longer than the pause
-        acfg = proto.Config(cfg.services, timeout=rng.choice([None, 3600]), rules=cfg.rules, use_class=cfg.use_class)
+        acfg = proto.Config(cfg.services, timeout=[None, 3600, 0][seed % 3], rules=cfg.rules, use_class=cfg.use_class)
         conf = acfg.text(b["moddir"])
         for rep in range(a["reps"]):
             bl = mutate(rng, lines, ids) if rng.random() < 0.3 else [l.encode("latin-1") for l in lines]
@@ -363,6 +363,26 @@ def run(chk, tier, scale=1.0):
     add("memcheck", int((16 if q else 400) * scale) or 1, 2)
     jobs.sort(key=lambda j: j["kind"] != "aged")      # the slow ones first
     res = vcommon.pmap(_stream_worker, jobs, chunksize=1)
+    # (6) the well-formed workloads of the behavioural checks - rule tables with every kind of criterion and address form, service
+    # tables of up to 40 entries, address texts of every shape, reloads - judged here by the crash / sanitizer / exit oracle alone
+    # (those checks call a run that ends in a sanitizer report inconclusive and point here)
+    from checks import c06, c11, c12, pcommon
+    wf = []
+    wf += vcommon.pmap(c11._worker, [dict(build=b, seed=random.Random("c08w11/%d/%d" % (chk.seed, i)).randrange(1 << 30), nprobes=24) for i in range(int((32 if q else 600) * scale) or 1)])
+    wf += vcommon.pmap(c12._daemon_worker, [dict(build=b, seed=chk.seed * 7919 + 500 + i, n=20) for i in range(int((12 if q else 200) * scale) or 1)])
+    wf += vcommon.pmap(c06._many_worker, [dict(build=b, n=n_, seed=chk.seed * 100 + k, mixed=(k % 2 == 0), props=[]) for k, n_ in enumerate([31, 32, 33, 40] * (1 if q else 6))])
+    wf += vcommon.pmap(prun.hist_worker, pcommon.hist_jobs(b, int((64 if q else 1500) * scale) or 1, chk.seed, [], tag="c08h", n_events=80), chunksize=4)
+    wf_seen = set()
+    for r in wf:
+        chk.add_case(r["hash"], r["nontrivial"])
+        chk.count("runs_wellformed_history")
+        chk.count("clean_exits", 0 if r["crash"] else 1)
+        for (kind, func, err, tail) in r["crash"]:
+            if (kind, func) in wf_seen:
+                continue
+            wf_seen.add((kind, func))
+            chk.violation(Violation("C08", "crash", "%s|%s" % (kind, func), "daemon failed (%s in %s) during a well-formed history\n%s\nlast steps:\n%s" % (kind, func, err, tail),
+                                    {"config": r["config"], "events": r["events"], "wellformed": True}))
     seen_crash = {}
     sampled = set()
     for kind, packed in res:
@@ -417,7 +437,7 @@ def run(chk, tier, scale=1.0):
                 "command without its argument), 0..40 arguments, empty / whitespace / colon-only lines, CR LF mixtures, NUL and high bytes, 600 B..70 KB lines, ids at and "
                 "beyond the limits of int and long, every command with id -1 and with live ids, replies with every malformed tag, random bytes; (2) peer death: %s prefixes of "
                 "streams; (3) the same stream (a quarter of them dense bursts of 150-1000 clients with lines of a few bytes) under read() segmentations of at most 1,2,3,7,16,100,1000 bytes chosen by the guarded chunk hook must give identical stdout; "
-                "every third segmentation run additionally has 30-60 %% of the read()/readv() calls on fd 0 fail with EINTR / EAGAIN (LD_PRELOAD shim); (5) hostile streams fed to the UNSANITIZED build under valgrind memcheck (uninitialised values, invalid reads and writes); (3d) streams interrupted for 11.3 s so that the statistics asked for afterwards report requests more than ten seconds old; (3c) streams interrupted by a SIGUSR1 whose file lists the same modules in another order; (3b) streams interrupted for 1.6 s under a 1 s request timeout so that the real timers of pending, refused and abandoned requests expire; (4) a good stream with junk lines (unknown ids, unknown command words, malformed replies) mixed in must give identical stdout; oracle for all: exit 0 at end "
+                "every third segmentation run additionally has 30-60 %% of the read()/readv() calls on fd 0 fail with EINTR / EAGAIN (LD_PRELOAD shim); (6) the well-formed workloads of C11 (rule tables), C12 (address texts), C06 (31-40 services) and random histories with reloads, judged by this oracle alone; (5) hostile streams fed to the UNSANITIZED build under valgrind memcheck (uninitialised values, invalid reads and writes); (3d) streams interrupted for 11.3 s so that the statistics asked for afterwards report requests more than ten seconds old; (3c) streams interrupted by a SIGUSR1 whose file lists the same modules in another order; (3b) streams interrupted for 1.6 s under a 1 s request timeout so that the real timers of pending, refused and abandoned requests expire; (4) a good stream with junk lines (unknown ids, unknown command words, malformed replies) mixed in must give identical stdout; oracle for all: exit 0 at end "
                 "of input, no ASan / UBSan / LeakSanitizer report, no hang; distinct = hash of input; non-trivial = non-empty input" % ("60 sampled per stream" if q else "all"))
     chk.require("runs_hostile", 500 * min(1.0, scale))
     chk.require("runs_that_reported_old_requests", 1)
@@ -429,6 +449,9 @@ def run(chk, tier, scale=1.0):
 def replay(chk, rep):
     b = prun.build_daemon("c08-replay")
     w = rep["witness"]
+    if w.get("wellformed"):
+        import prun
+        return prun.replay_witness(chk, rep, [])
     if w.get("memcheck"):
         import build as buildmod
         bp = buildmod.build_daemon(buildmod.fresh_dir("c08p-replay"), "plain")
